@@ -162,6 +162,12 @@ static void _GD_PutCarraySlice(DIRFILE* D, gd_entry_t *E, unsigned long first,
   E->e->u.scalar.client = NULL;
   E->e->u.scalar.n_client = 0;
 
+  /* a client may be (an input of) an input of any MPLEX: forget the start
+   * values they cached from earlier reads */
+  for (i = 0; i < (int)D->n_entries; ++i)
+    if (D->entry[i]->field_type == GD_MPLEX_ENTRY && D->entry[i]->e)
+      D->entry[i]->e->u.mplex.type = GD_NULL;
+
   dreturnvoid();
 }
 
